@@ -42,6 +42,23 @@ type htmlerT struct{ s string }
 func (h htmlerT) HTML() template.HTML { return template.HTML(h.s) }
 
 type embE struct{ X string }
+type c04self struct{}
+
+func (p c04self) Interface() interface{} { return p }
+
+type c04cycA struct{}
+type c04cycB struct{}
+
+func (p c04cycA) Interface() interface{} { return c04cycB{} }
+func (p c04cycB) Interface() interface{} { return c04cycA{} }
+
+type c04wrap struct{ v interface{} }
+
+func (p c04wrap) Interface() interface{} { return p.v }
+
+// a context that is not a *plush.Context (Exec accepts any hctx.Context)
+type c04fctx struct{ *plush.Context }
+
 type embO struct {
 	*embE
 	Y string
@@ -90,6 +107,9 @@ func c04extra() map[string]interface{} {
 		// uncomparable dynamic value
 		"xnilfn": (func() int)(nil), "xnilstrer": (*strer)(nil), "xnilhtmler": (*htmlerT)(nil), "xembed": embO{Y: "y"}, "xpembed": &embO{Y: "y"}, "xdynkey": dynK{V: []int{1}},
 		"xidbytes": docB{ID: []byte{1, 2}}, "xidzero": docB{}, "xslugs": &docS{Slug: []string{"a"}}, "xidmap": docM{ID: map[string]int{"a": 1}}, "xidlist": []interface{}{docB{ID: []byte{3}}},
+		// wrappers the sink unwraps through Interface(): one that hands back itself, two that hand back
+		// each other, and an honest one three levels deep
+		"xselfw": c04self{}, "xcycw": c04cycA{}, "xdeepw": c04wrap{c04wrap{c04wrap{7}}}, "xpselfw": &c04self{},
 		"xhcnamed": func(h namedHC) (string, error) {
 			hh := plush.HelperContext(h)
 			if hh.HasBlock() {
@@ -324,6 +344,32 @@ func init() {
 		// the repaired defects stay in the corpus
 		for _, t := range []string{`<%= vm[vnil] %>`, `<% vmi["b"] = "x" %>`, `<% vmi[1] = 1 %>`, `<% vxs[0] = vnil %>`, `<%= vxs[0 - 1] %>`, `<%= len(1) %>`, `<%= truncate("abc", {size: "x"}) %>`, `<% let g = fn(a, b) { return a } %><%= g(1) %>`, `<%= vt1.NilP.Hello("x") %>`, `<%= {let: 1} %>`} {
 			e.c04case("corpus", t, true, nil)
+		}
+		// a foreign hctx.Context (a struct embedding *plush.Context) handed to Exec: constructs that open a
+		// scope need the data of a *plush.Context - an error, never a failed type assertion
+		for _, tm := range []string{"<%= 1 %>", "<%= for (x) in [1, 2] { %><%= x %><% } %>", "<%= vxs[0] %>", "<%= vt1.Get().Name %>", "<%= vm[\"k\"] %>", "<% let f = fn(a) { return a } %><%= f(1) %>",
+			"<%= if (true) { %>a<% } %>", "<%= vxs[0].Name %>", "<%= blk() { %>b<% } %>", "<%= blkctx({w: 1}) { %>b<% } %>", "<%= partial(\"p.html\", {who: 1}) %>"} {
+			func() {
+				defer func() {
+					if r := recover(); r != nil {
+						e.Violate("eval-panic@"+siteOf(fmt.Sprint(r)+" @ "+panicSite()), fmt.Sprintf("Exec with a context that is not a *plush.Context panicked on %q: %v", tm, r), map[string]string{"tmpl": tm})
+					}
+				}()
+				t, err := plush.NewTemplate(tm)
+				if err != nil {
+					return
+				}
+				data := map[string]interface{}{}
+				for _, b := range stdBinds() {
+					data[b.Name] = b.V.Go(&runLog{})
+				}
+				for _, b := range c04pool() {
+					data[b.Name] = b.V.Go(&runLog{})
+				}
+				_, _ = t.Exec(c04fctx{plush.NewContextWith(data)})
+				e.rep.Evaluations++
+				e.Count("foreign-context")
+			}()
 		}
 	})
 }
